@@ -1,6 +1,10 @@
 package redis
 
-import "github.com/mgtv-tech/redis-GunYu/pkg/digest"
+import (
+	"strings"
+
+	"github.com/mgtv-tech/redis-GunYu/pkg/digest"
+)
 
 type SlotOwner struct {
 	Master            string
@@ -10,19 +14,13 @@ type SlotOwner struct {
 }
 
 func KeyToSlot(key string) uint16 {
-	hashtag := ""
-	for i, s := range key {
-		if s == '{' {
-			for k := i; k < len(key); k++ {
-				if key[k] == '}' {
-					hashtag = key[i+1 : k]
-					break
-				}
-			}
+	// Redis Cluster hash tag: only the bytes between the first '{' and the first
+	// '}' to its right are hashed, provided there is at least one byte between
+	// them; otherwise the whole key is hashed.
+	if s := strings.IndexByte(key, '{'); s >= 0 {
+		if e := strings.IndexByte(key[s+1:], '}'); e > 0 {
+			key = key[s+1 : s+1+e]
 		}
-	}
-	if len(hashtag) > 0 {
-		return digest.Crc16(hashtag) & 0x3fff
 	}
 	return digest.Crc16(key) & 0x3fff
 }
